@@ -259,6 +259,11 @@ def pg_cases(draw):
         # True: returns / rewards are built so that the *effective* weights (after the baseline / the
         # bootstrap) carry the drawn values and signs; False: the drawn values are the raw returns / rewards
         case["w_effective"] = draw(st.sampled_from([True, True, True, True, False]))
+    # the weights / discounts are array-likes: jax arrays or (as a caller that assembles Monte-Carlo returns with
+    # numpy holds them) numpy arrays; the routine is evaluated once or twice on the same arguments (several
+    # gradient steps on one batch): every evaluation is checked, the caller's arrays must stay as they were
+    case["arrays"] = draw(st.sampled_from(["numpy", "jax", "numpy", "jax"]))
+    case["calls"] = draw(st.sampled_from([2, 1, 2]))
     return case
 
 
@@ -273,9 +278,37 @@ def run_pg(case):
     policy, info = _policy(case)
     obs = jnp.asarray(_obs(case))
     actions = _actions(case, policy, info, obs)
-    w_in = jnp.asarray(np.asarray(case["w"], dtype=np.float32))
+    use_np = case.get("arrays", "jax") == "numpy"
+    calls = int(case.get("calls", 1))
+    held = []  # (name, the caller's numpy array, its bytes before the calls)
+
+    def arr(name, x):
+        """The array-like handed to the routine."""
+        if x is None:
+            return None
+        if not use_np:
+            return jnp.asarray(x)
+        a = np.array(x, copy=True)
+        held.append((name, a, a.tobytes()))
+        return a
+
+    def evaluate(fn):
+        """fn() once or twice on the same arguments; the results of all evaluations must agree bit for bit
+        (pure function of its arguments), the last one goes to the oracle."""
+        outs = [fn() for _ in range(calls)]
+        for name, a, b in held:
+            check(a.tobytes() == b, f"{sub}.arguments_modified",
+                  lambda name=name, a=a, b=b: f"the caller's numpy array '{name}' was changed by the call: "
+                                              f"{np.frombuffer(b, dtype=a.dtype).tolist()} -> {a.tolist()}")
+        if calls > 1:
+            l0, l1 = (np.asarray(o[0]) for o in outs[:2])
+            check(l0.tobytes() == l1.tobytes(), f"{sub}.second_evaluation_differs",
+                  lambda: f"same arguments, unchanged policy: loss {float(l0)} then {float(l1)}")
+        return outs[-1]
+
+    w_in = np.asarray(case["w"], dtype=np.float32)
     w32 = np.asarray(case["w"], dtype=np.float32).astype(np.float64)
-    labels = [routine, case["head"], f"n={n}"]
+    labels = [routine, case["head"], f"n={n}", "arrays=" + case.get("arrays", "jax"), f"calls={calls}"]
     sub = f"pg.{routine}"
 
     def vflat(vf, o):
@@ -283,8 +316,9 @@ def run_pg(case):
 
     try:
         if routine == "a2c":
-            direct = stochastic_policy_gradient_pseudo_loss(obs, actions, w_in, policy)
-            loss, grad = a2c_policy_gradient(policy, obs, actions, w_in)
+            direct = stochastic_policy_gradient_pseudo_loss(obs, actions, jnp.asarray(w_in), policy)
+            w_arg = arr("advantages", w_in)
+            loss, grad = evaluate(lambda: a2c_policy_gradient(policy, obs, actions, w_arg))
             check(close(float(direct), float(loss), rel=1e-6, abs_=1e-30), "pg.a2c.value_is_pseudo_loss",
                   lambda: f"{float(direct)} vs {float(loss)}")
             w_ref = w32
@@ -294,9 +328,9 @@ def run_pg(case):
             gd = None if case["gd_gamma"] is None else np.float32(case["gd_gamma"]) ** np.arange(n, dtype=np.float32)
             if vf is not None and case["w_effective"]:
                 w32 = (w32 + vflat(vf, obs)).astype(np.float32).astype(np.float64)
-                w_in = jnp.asarray(w32.astype(np.float32))
-            loss, grad = reinforce_gradient(policy, vf, obs, actions, w_in,
-                                            None if gd is None else jnp.asarray(gd))
+                w_in = w32.astype(np.float32)
+            w_arg, gd_arg = arr("returns", w_in), arr("gamma_discount", gd)
+            loss, grad = evaluate(lambda: reinforce_gradient(policy, vf, obs, actions, w_arg, gd_arg))
             w_ref = w32 - (vflat(vf, obs) if vf is not None else 0.0)
             # the routine forms returns - baseline (and the product with the discount) in float32
             w_err = 2e-7 * (np.abs(w32) + (np.abs(vflat(vf, obs)) if vf is not None else 0.0))
@@ -311,9 +345,10 @@ def run_pg(case):
             gamma = float(np.float32(case["gamma"]))
             if case["w_effective"]:
                 w32 = (w32 - gamma * vflat(vf, next_obs) + vflat(vf, obs)).astype(np.float32).astype(np.float64)
-                w_in = jnp.asarray(w32.astype(np.float32))
-            loss, grad = actor_critic_policy_gradient(policy, vf, obs, actions, next_obs, w_in,
-                                                      jnp.asarray(gd), gamma)
+                w_in = w32.astype(np.float32)
+            w_arg, gd_arg = arr("rewards", w_in), arr("gamma_discount", gd)
+            loss, grad = evaluate(lambda: actor_critic_policy_gradient(policy, vf, obs, actions, next_obs, w_arg,
+                                                                       gd_arg, gamma))
             w_ref = gd.astype(np.float64) * (w32 + gamma * vflat(vf, next_obs) - vflat(vf, obs))
             w_err = 2e-7 * gd.astype(np.float64) * (
                 np.abs(w32) + 2.0 * gamma * np.abs(vflat(vf, next_obs)) + np.abs(vflat(vf, obs)))
